@@ -12,6 +12,8 @@ import (
 	"strings"
 	"time"
 
+	"github.com/lindb/common/pkg/ltoml"
+
 	"github.com/lindb/lindb/kv"
 	"github.com/lindb/lindb/kv/table"
 	"github.com/lindb/lindb/kv/version"
@@ -566,11 +568,133 @@ func runHistory(out *vh.Out, root string, id int, name string, script []string, 
 	out.Check(idx, fmt.Sprintf("check_hist %s\n %s", vh.List(w.evs), vh.List(w.obs)))
 }
 
+// ---- the table reader cache: snapshots request readers, close, the cache is cleaned up ----
+
+func runCacheHistory(out *vh.Out, root string, id int, name string, script []string) {
+	dir := filepath.Join(root, fmt.Sprintf("k%d", id))
+	defer os.RemoveAll(dir)
+	opt := kv.DefaultStoreOption()
+	opt.TTL = ltoml.Duration(time.Millisecond) // every entry is expired when the cleanup runs (the harness sleeps before it)
+	st, err := kv.GetStoreManager().CreateStore(dir, opt)
+	if err != nil {
+		out.Violation(0, "open", err.Error(), nil)
+		return
+	}
+	defer func() { _ = kv.GetStoreManager().CloseStore(dir) }()
+	fam, err := st.CreateFamily("f", kv.FamilyOption{Merger: "verif-c02", CompactThreshold: 100})
+	if err != nil {
+		out.Violation(0, "family", err.Error(), nil)
+		return
+	}
+	// three tables
+	for i := 0; i < 3; i++ {
+		fl := fam.NewFlusher()
+		_ = fl.Add(uint32(10+i), []byte{byte(i), 1, 2})
+		if err := fl.Commit(); err != nil {
+			out.Violation(0, "flush", err.Error(), nil)
+			return
+		}
+		fl.Release()
+	}
+	tmp := fam.GetSnapshot()
+	var files []table.FileNumber
+	for _, fm := range tmp.GetCurrent().GetAllFiles() {
+		files = append(files, fm.GetFileNumber())
+	}
+	tmp.Close()
+	cache := kv.VerifStoreCache(st)
+	fileIdx := func(name string) int {
+		for i, f := range files {
+			if version.Table(f) == name {
+				return i
+			}
+		}
+		return 99
+	}
+	observe := func() string {
+		var es []string
+		ents := table.VerifCacheEntries(cache)
+		var names []string
+		for k := range ents {
+			names = append(names, k)
+		}
+		sort.Strings(names)
+		for _, k := range names {
+			es = append(es, fmt.Sprintf("(%d, %s)", fileIdx(k), vh.Z(int64(ents[k]))))
+		}
+		return vh.List(es)
+	}
+	snaps := map[int]version.Snapshot{}
+	var evs, obs []string
+	var evJ []string
+	for _, op := range script {
+		var a, b int
+		switch {
+		case strings.HasPrefix(op, "g"): // g<snapshot><file>: the snapshot asks for the reader of a file
+			_, _ = fmt.Sscanf(op, "g%1d%1d", &a, &b)
+			sn := snaps[a]
+			if sn == nil {
+				sn = fam.GetSnapshot()
+				snaps[a] = sn
+			}
+			if _, err := sn.GetReader(files[b]); err != nil {
+				out.Violation(0, "GetReader", err.Error(), nil)
+				return
+			}
+			evs = append(evs, fmt.Sprintf("Cache.CGet %d %d", a, b))
+		case strings.HasPrefix(op, "r"): // r<snapshot>: close the snapshot
+			_, _ = fmt.Sscanf(op, "r%1d", &a)
+			if sn := snaps[a]; sn != nil {
+				sn.Close()
+				delete(snaps, a)
+			}
+			evs = append(evs, fmt.Sprintf("Cache.CRelease %d", a))
+		case op == "c":
+			time.Sleep(3 * time.Millisecond)
+			cache.Cleanup()
+			evs = append(evs, "Cache.CCleanup")
+		default:
+			continue
+		}
+		evJ = append(evJ, op)
+		obs = append(obs, observe())
+	}
+	for _, sn := range snaps {
+		sn.Close()
+	}
+	idx := out.Case(map[string]interface{}{"kind": "reader-cache", "name": name, "script": strings.Join(evJ, " ")}, len(evJ) >= 6)
+	out.Count("reader-cache-histories")
+	out.CountN("reader-cache-events", len(evJ))
+	out.Check(idx, fmt.Sprintf("check_cache %s\n %s", vh.List(evs), vh.List(obs)))
+}
+
+func randomCacheScript(r *vh.Rand) []string {
+	var sc []string
+	open := map[int]bool{}
+	for i := r.Range(6, 16); i > 0; i-- {
+		switch x := r.Intn(100); {
+		case x < 50:
+			a := r.Intn(3)
+			open[a] = true
+			sc = append(sc, fmt.Sprintf("g%d%d", a, r.Intn(3)))
+		case x < 75:
+			a := r.Intn(3)
+			if open[a] {
+				delete(open, a)
+				sc = append(sc, fmt.Sprintf("r%d", a))
+			}
+		default:
+			sc = append(sc, "c")
+		}
+	}
+	return sc
+}
+
 func main() {
 	cfg := vh.ParseFlags()
 	r := vh.NewRand(cfg.Seed)
 	kv.RegisterMerger("verif-c02", func(fl kv.Flusher) (kv.Merger, error) { return &merger{fl}, nil })
-	out := vh.NewOut(cfg.Out, "From Coq Require Import List Arith Bool.\nImport ListNotations.\nFrom LinDBV.C02 Require Import Model Check.\nOpen Scope nat_scope.\n")
+	out := vh.NewOut(cfg.Out, "From Coq Require Import List Arith ZArith Bool.\nImport ListNotations.\nFrom LinDBV.C02 Require Import Model Check.\nFrom LinDBV.C02 Require Cache.\nOpen Scope nat_scope.\n")
 	out.ShardSize = 12
 	root, err := os.MkdirTemp("", "verif-c02-")
 	if err != nil {
@@ -582,6 +706,11 @@ func main() {
 		strings.Fields("flush flush flush flush flush flush snap compact flush flush flush flush flush flush compact dlist flush dstep flush dstep flush dstep dstep dstep dlist flush flush dstep dstep flush dstep dstep dstep close"), r)
 	for i := 0; i < cfg.N; i++ {
 		runHistory(out, root, i+1, "random", nil, r)
+	}
+	// the table reader cache
+	runCacheHistory(out, root, 0, "two snapshots share a reader, the first closes, cleanup, the second still reads", strings.Fields("g10 g20 r1 c g21 c r2 c"))
+	for i := 0; i < cfg.N/2; i++ {
+		runCacheHistory(out, root, i+1, "random", randomCacheScript(r))
 	}
 	out.Notes = append(out.Notes, "every schedule is forced: flush commit and obsolete-file deletion run in goroutines parked at the scheduling points; a compaction run is taken as a whole (its model events are emitted as a block, observed at its end)")
 	out.Finish()
